@@ -226,6 +226,52 @@ fn compare_c19(fa: &[Frame], fb: &[Frame]) -> Vec<Violation> {
     v
 }
 
+fn exec_pair(a: Scenario, b: Scenario, ring_n: bool, keep_log: bool) -> Outcome {
+    let (fa, sa, fpa, la, va) = run_frames(&a, ring_n, keep_log);
+    // P' must send the very same requests apart from the toggled opcodes: CAS
+    // tokens that P resolved from what it had observed are carried over literally
+    // (a quiet mutation reveals no CAS, so P' could not resolve them itself)
+    let mut b = b;
+    {
+        let mut k = 0usize;
+        for ev in b.events.iter_mut() {
+            if let Ev::Send { req, .. } = ev {
+                if let Some(f) = fa.get(k) {
+                    if f.sym_index == k {
+                        req.cas = crate::scenario::CasSel::Literal(f.req.cas);
+                    }
+                }
+                k += 1;
+            }
+        }
+    }
+    let (fb, sb, fpb, lb, vb) = run_frames(&b, ring_n, keep_log);
+    let mut out = Outcome::default();
+    out.stats.merge(&sa);
+    out.stats.merge(&sb);
+    let mut fp = Fp::new();
+    fp.u64(fpa);
+    fp.u64(fpb);
+    out.fp = fp.0;
+    let toggled = fa.iter().zip(fb.iter()).filter(|(x, y)| x.req.opcode != y.req.opcode).count();
+    out.nontrivial = toggled > 0;
+    out.count("toggled_positions", toggled as u64);
+    out.count(if ring_n { "ring_N_pairs" } else { "ring_H_pairs" }, 1);
+    if keep_log {
+        out.log.push("--- program P".into());
+        out.log.extend(la);
+        out.log.push("--- program P' (toggled)".into());
+        out.log.extend(lb);
+    }
+    for v in va.into_iter().chain(vb.into_iter()) {
+        *out.out_of_scope.entry(v.signature()).or_insert(0) += 1;
+        out.all.push(v);
+    }
+    let v = compare_c19(&fa, &fb);
+    out.absorb(v, &|v| v.prop == "C19");
+    out
+}
+
 impl Check for C19 {
     fn id(&self) -> &'static str {
         "C19"
@@ -243,6 +289,10 @@ impl Check for C19 {
             data: json!({"scenario": a.to_json(), "scenario2": b.to_json()}),
         }
     }
+    fn run_fast(&self, run_seed: u64, _index: u64, tier: Tier) -> Option<Outcome> {
+        let (a, b, ring_n) = gen_c19(run_seed, tier);
+        Some(exec_pair(a, b, ring_n, false))
+    }
     fn execute(&self, case: &Case) -> Outcome {
         let a = Scenario::from_json(&case.data["scenario"]);
         let b = Scenario::from_json(&case.data["scenario2"]);
@@ -253,51 +303,7 @@ impl Check for C19 {
                 std::process::exit(2);
             }
         };
-        let ring_n = case.kind == "N";
-        let keep_log = case.data.get("log").is_some();
-        let (fa, sa, fpa, la, va) = run_frames(&a, ring_n, keep_log);
-        // P' must send the very same requests apart from the toggled opcodes: CAS
-        // tokens that P resolved from what it had observed are carried over literally
-        // (a quiet mutation reveals no CAS, so P' could not resolve them itself)
-        let mut b = b;
-        {
-            let mut k = 0usize;
-            for ev in b.events.iter_mut() {
-                if let Ev::Send { req, .. } = ev {
-                    if let Some(f) = fa.get(k) {
-                        if f.sym_index == k {
-                            req.cas = crate::scenario::CasSel::Literal(f.req.cas);
-                        }
-                    }
-                    k += 1;
-                }
-            }
-        }
-        let (fb, sb, fpb, lb, vb) = run_frames(&b, ring_n, keep_log);
-        let mut out = Outcome::default();
-        out.stats.merge(&sa);
-        out.stats.merge(&sb);
-        let mut fp = Fp::new();
-        fp.u64(fpa);
-        fp.u64(fpb);
-        out.fp = fp.0;
-        let toggled = fa.iter().zip(fb.iter()).filter(|(x, y)| x.req.opcode != y.req.opcode).count();
-        out.nontrivial = toggled > 0;
-        out.count("toggled_positions", toggled as u64);
-        out.count(if ring_n { "ring_N_pairs" } else { "ring_H_pairs" }, 1);
-        if keep_log {
-            out.log.push("--- program P".into());
-            out.log.extend(la);
-            out.log.push("--- program P' (toggled)".into());
-            out.log.extend(lb);
-        }
-        for v in va.into_iter().chain(vb.into_iter()) {
-            *out.out_of_scope.entry(v.signature()).or_insert(0) += 1;
-            out.all.push(v);
-        }
-        let v = compare_c19(&fa, &fb);
-        out.absorb(v, &|v| v.prop == "C19");
-        out
+        exec_pair(a, b, case.kind == "N", case.data.get("log").is_some())
     }
     fn shrink(&self, case: &Case) -> Vec<Case> {
         // drop the same events from both programs (they have the same shape)
